@@ -191,6 +191,19 @@ def enumerate_cases(tier):
                 decls, regs = [{"name": "v0", "kind": "local",
                                 "fmt": fmt}], []
                 leaf, name = ["var", "v0"], "v0"
+            # the unary operators under the sign-dependent consumers
+            for inner in (["neg", leaf], ["abs", leaf],
+                          ["neg", ["neg", leaf]]):
+                for outer in (["bin", ">>", inner, ["const", 1]],
+                              ["bin", ">>", inner, ["const", 7]],
+                              ["abs", inner],
+                              ["bin", "//", inner, ["const", 3]],
+                              ["bin", "%", inner, ["const", 3]],
+                              ["bin", "+", inner, ["const", 1]]):
+                    yield {"decls": decls, "regs": regs, "dst": leaf,
+                           "aug": None, "expr": outer,
+                           "vectors": [{name: v} for v in pool + [2, 200]
+                                       if lo <= v <= hi]}
             for op in ("+", "-", "^", "|", "&"):
                 for c in consts:
                     for swap in (False, True):
